@@ -16,6 +16,11 @@ R12.8 re-runs the functions that assemble those URLs with a small executor
 over Python constants (``_c12_helpers.ConstExec``): the adapter's bound scheme
 is set to each of http/https/ws/wss, the parameters are what the calls on the
 way from ``match`` pass, everything else is unknown and forks the path.
+R12.9 does the same for the host position, with the adapter's server name,
+subdomain and the map's host-matching flag set to each configuration.  R12.10
+and R12.11 run the executor on *symbolic rules* (``_c12_helpers.Obj``): the
+rule-pair predicate behind the defaults redirect and the sort key of the
+per-endpoint rule lists are evaluated as tables over small rule pairs.
 """
 
 from __future__ import annotations
@@ -28,7 +33,7 @@ from ..cfg import CFG, Node, cfg_of
 from ..dataflow import Def, ReachingDefs, bound_in_enclosing_comp
 from ..loader import AnalysisError, FuncInfo, const_str, dotted, is_self_attr, norm, walk_no_nested
 from ..report import Ctx
-from ._c12_helpers import UNKNOWN, BudgetExceeded, ConstExec, alias_values_rule, matcher_rules
+from ._c12_helpers import UNKNOWN, BudgetExceeded, ConstExec, alias_values_rule, build_order_rule, defaults_provider_rule, matcher_rules
 
 LEVEL_TEXT = (
     "Static decision of structural clauses of C12 on /repo's current source, by abstract interpretation of MapAdapter.match "
@@ -51,16 +56,30 @@ LEVEL_TEXT = (
     "for an adapter bound to http, https, ws or wss the scheme position of every redirect URL, evaluated by a "
     "path-sensitive constant executor in the calling context of the redirect (arguments and defaults of the calls leading "
     "to the assembly, the bound-scheme fallback, the secure/websocket case split, whatever their order and spelling), is a "
-    "scheme of the same security class (https/wss vs http/ws). Decided on all paths of the "
+    "scheme of the same security class (https/wss vs http/ws); (R12.9) host clause of 'points at the host the adapter was bound to': "
+    "for an adapter with host matching on (no subdomain), and with host matching off and an empty or a non-empty bound subdomain, the host "
+    "position of every redirect URL, evaluated by the same executor in the calling context of the redirect (the slash and merged-slash "
+    "redirects hand the host computation no domain part; a domain part that comes from a rule's build() is taken to be the adapter's own - "
+    "the matched rule's - domain), is <subdomain>.<server name> when host matching is off and the subdomain is non-empty, else the server "
+    "name; contexts in which the position does not evaluate to constants are noted, not judged; (R12.10) the rule-pair predicate the adapter "
+    "consults to pick the defaults-canonical form of the matched rule (a Rule method taking another rule, evaluated on symbolic rule pairs "
+    "whose argument sets are equal, a proper superset, a proper subset, overlapping and disjoint, with and without defaults on the matched "
+    "rule) is false whenever the argument sets differ - otherwise the defaults redirect denotes other arguments than the request - and "
+    "false for a build-only candidate (its URL matches nothing); (R12.11) convergence premise of the alias and defaults redirects: the sort "
+    "key of the per-endpoint rule lists, evaluated on symbolic (non-alias, alias) rule pairs with 0..2 arguments and every number of "
+    "defaults, places the alias rule strictly after the non-alias rule with the same number of arguments - otherwise build() answers an "
+    "alias redirect with the alias rule's own URL, and the canonical URL is defaults-redirected to the alias. Decided on all paths of the "
     "analysed functions. Values are followed element-wise through tuples, mappings with constant keys, lists / generators / iterators "
     "(yield, next(), for, comprehensions, iter(callable, sentinel)), item stores and mutating calls on locals, * / ** arguments taken from "
     "literal tuples / tables, and through methods (also static / class-level) and module-level functions of the routing package; where request "
     "data reaches a scheme or host position, or an assembled URL, path prefix or slash stripping can only be judged, through a construct that is "
     "not followed (a part taken out of a value flattened by an unmodelled operation, unmatched * / ** arguments, an unknown stripping helper), "
     "the answer is ANALYSIS-ERROR (cannot decide), not a violation. NOT decided: that the redirect target matches without "
-    "a further redirect and denotes the same endpoint and arguments beyond R12.7 (behavioural: depends on the rule set - "
-    "which rule build() selects for the values, provides_defaults_for/suitable_for), that values are converted correctly "
-    "(to_python/to_url round trip), adapters bound to an empty or other scheme, value-level "
+    "a further redirect and denotes the same endpoint and arguments beyond R12.7, R12.10 and R12.11 (behavioural: depends on the rule set - "
+    "which rule build() selects for the values among the non-alias rules, suitable_for, the order among rules with different numbers of "
+    "arguments, an arguments test that is written in the adapter's loop instead of the rule-pair predicate), that values are converted correctly "
+    "(to_python/to_url round trip), adapters bound to an empty or other scheme, the host of a redirect built from a rule that declares "
+    "another subdomain / host than the one the adapter is bound to, value-level "
     "correctness of quote()/_urlencode, and redirect_to targets (excluded by the property)."
 )
 TRUSTED = [
@@ -69,7 +88,8 @@ TRUSTED = [
     "str.lstrip('/') returns a string that does not start with '/'",
     "an f-string replacement field without conversion or format spec inserts a str unchanged",
     "Python semantics of containers and iteration: a for loop / next() / comprehension over a generator, list, tuple or set gives the values that were yielded / stored; d[k], d.get(k), **d read what was stored under k",
-    "Python semantics of constants: comparison, `in` on set/tuple/frozenset displays, and/or/not, conditional expressions, str concatenation and the str methods lower/upper/strip/startswith/endswith/removeprefix/removesuffix/partition",
+    "Python semantics of constants: comparison, `in` on set/tuple/frozenset displays, and/or/not, conditional expressions, str concatenation and the str methods lower/upper/strip/startswith/endswith/removeprefix/removesuffix/partition/join",
+    "Python semantics of frozenset constants (==, <=, >=, -, &, |, ^, issubset/issuperset/isdisjoint), len(), int(), bool(), unary minus, tuple comparison, and of list.sort / sorted: ascending by key (descending with reverse=True), stable",
 ]
 ASSUMPTIONS = [
     "Rule.build()'s first element (the domain part) is produced from the rule's declared subdomain/host template, not from the request path",
@@ -78,6 +98,9 @@ ASSUMPTIONS = [
     "the attribute MapAdapter.__init__ assigns from its url_scheme parameter holds the scheme the adapter was bound to and is not rebound afterwards",
     "the mapping-typed parameter of RequestAliasRedirect.__init__ and the mapping-typed element of StateMachineMatcher.match's return annotation are the matched values",
     "reading an attribute of the matched rule (rule.defaults, rule.alias) twice within one match() call gives the same value",
+    "the attributes MapAdapter.__init__ assigns from its server_name / subdomain / map parameters and Map.__init__ from host_matching hold what the adapter was bound with; the host an adapter is bound to is <subdomain>.<server name> when host matching is off and the subdomain is non-empty, else the server name (Map.bind); a host-matching adapter has no subdomain, any other a str",
+    "the domain part Rule.build() returns for the matched rule (and for a same-domain rule of its endpoint) is the domain part the adapter hands the matcher: its subdomain, or its server name under host matching",
+    "the attributes Rule.__init__ assigns from its defaults / alias / build_only / endpoint keywords, and the one it derives from the defaults' keys (the argument set, a set of str that contains the defaults' keys), are what the rule predicates read; two different rules of a map compare unequal",
 ]
 
 MAP = "routing.map"
@@ -451,6 +474,9 @@ class Interp:
         self.urljoins: list[tuple[ast.Call, Frame]] = []
         # (assembly site, frame it was evaluated in, pieces of its scheme position) for R12.8
         self.scheme_sites: list[tuple[ast.AST, Frame, list[Piece]]] = []
+        # the same for the host position (R12.9), with the adapter's own functions called there whose result goes into it
+        self.host_sites: list[tuple[ast.AST, Frame, list[Piece], list[FuncInfo]]] = []
+        self._inlined: tuple[Frame, list[FuncInfo]] | None = None
 
     # -- frames ---------------------------------------------------------
     def call_frame(self, callee: FuncInfo, call: ast.Call, fr: Frame) -> Frame:
@@ -545,6 +571,8 @@ class Interp:
             return BOTTOM
         nf = self.call_frame(callee, call, fr)
         self.ctx.saw(callee)
+        if self._inlined is not None and self._inlined[0] is fr:
+            self._inlined[1].append(callee)
         if isinstance(callee.node, ast.AsyncFunctionDef):  # a coroutine / async generator object: not modelled
             return join_all(nf.bind.values()).cooked((f"{callee.qualname} is async",), vague=True)
         yields = [n for n in walk_no_nested(callee.node) if isinstance(n, (ast.Yield, ast.YieldFrom))]
@@ -951,8 +979,20 @@ class Interp:
         q = self.ev(query, fr)
         qlabs = _keep_raw(q)
         self.scheme_sites.append((c, fr, [("e", scheme)]))
-        sv, nv = self.ev(scheme, fr), self.ev(netloc, fr)
+        sv = self.ev(scheme, fr)
+        nv = self._ev_host([("e", netloc)], c, fr)
         return self._register(Url(c, fr.fi, "urlunsplit((scheme, host, path, query, fragment))", sv.flat(), nv.flat(), plabs, ok, fact, qlabs, _weak_positions(sv, nv)))
+
+    def _ev_host(self, pieces: list[Piece], site: ast.AST, fr: Frame) -> Abs:
+        """evaluate the host position of an assembly site, noting which functions of the routing package the assembling
+        function calls for it (the host computation)."""
+        saved, self._inlined = self._inlined, (fr, [])
+        try:
+            v = join_all(self.ev(p[1], fr) for p in pieces if p[0] == "e")
+            self.host_sites.append((site, fr, pieces, list(self._inlined[1])))
+        finally:
+            self._inlined = saved
+        return v
 
     def ev_fstring(self, e: ast.JoinedStr, fr: Frame) -> Abs:
         raw = self._fuse(self.pieces(e, fr, resolve=False))
@@ -1009,7 +1049,7 @@ class Interp:
             if p[0] == "e":
                 q |= _keep_raw(self.ev(p[1], fr))
         self.scheme_sites.append((e, fr, self._fuse(zones["scheme"])))
-        sv, nv = zv("scheme"), zv("netloc")
+        sv, nv = zv("scheme"), self._ev_host(self._fuse(zones["netloc"]), e, fr)
         return self._register(Url(e, fr.fi, "f-string {scheme}//{host}{root}/{path}", sv.flat(), nv.flat(), plabs, ok, fact, frozenset(q), _weak_positions(sv, nv)))
 
 
@@ -1060,6 +1100,10 @@ def run(ctx: Ctx) -> None:
     ctx.rule("R12.6", "a missing-slash signal raised while walking path P is turned into a redirect to that same P + '/' (not to another path value such as the merged-slash variant)")
     ctx.rule("R12.7", "the values the matcher raises with the alias-redirect signal include everything the values of its match result are made from (converter values and the rule's defaults), on every path to the raise")
     ctx.rule("R12.8", "for an adapter bound to http, https, ws or wss, the scheme position of every router-made redirect URL evaluates - on every path, in the calling context of the redirect - to a scheme of the same security class (https/wss for https/wss, http/ws for http/ws)")
+
+    ctx.rule("R12.9", "the host position of every router-made redirect URL evaluates - on every path, in the calling context of the redirect, with host matching on and off and with and without a bound subdomain - to the host the adapter was bound to: <subdomain>.<server name> in subdomain mode with a non-empty subdomain, else the server name; a domain part the context leaves open is taken to be the bound one")
+    ctx.rule("R12.10", "the rule-pair predicate by which the adapter picks a defaults-canonical form for the matched rule is false for every pair of rules whose argument sets differ, and for a build-only candidate")
+    ctx.rule("R12.11", "the sort key of the per-endpoint rule lists (the order in which build() and the defaults redirect try rules) places an alias rule strictly after every non-alias rule with the same number of arguments, for all numbers of arguments and defaults")
 
     ip = Interp(ctx)
     match = repo.func(f"{ADAPTER}.match")
@@ -1211,6 +1255,11 @@ def run(ctx: Ctx) -> None:
     alias_values_rule(ctx)
     # ---------------- R12.8 ----------------------------------------------------
     _scheme_rule(ctx, ip, router_sites)
+    # ---------------- R12.9 ----------------------------------------------------
+    _host_rule(ctx, ip, router_sites)
+    # ---------------- R12.10 / R12.11 (wzsa/rules/_c12_helpers.py) ----------------
+    defaults_provider_rule(ctx)
+    build_order_rule(ctx)
 
 
 # ---------------------------------------------------------------------
@@ -1308,6 +1357,85 @@ def _scheme_rule(ctx: Ctx, ip: Interp, router_sites: set[int]) -> None:
             raise AnalysisError(f"{fi.qualname}: the {form} at {fi.loc(site)} is reached in no evaluated context")
         ctx.ob("R12.8", f"{fi.qualname}: scheme position of the {form} stays in the security class of the bound scheme", not bad,
                ("; ".join(bad) + " | " if bad else "") + "scheme position by bound scheme: " + " ".join(facts), fi, site, f"{fi.qualname} scheme position [{form}]")
+
+
+# ---------------------------------------------------------------------
+# R12.9
+
+BOUND_SERVER = "srv.example:8443"
+# (host matching, bound subdomain): Map.bind gives a host-matching adapter no subdomain and every other adapter a str
+BOUND_CONFIGS = ((True, None), (False, ""), (False, "sub"))
+
+
+def _init_attrs(init: FuncInfo, param: str) -> set[str]:
+    """the attributes __init__ assigns from its parameter `param`."""
+    return {tg.attr for st in walk_no_nested(init.node) if isinstance(st, (ast.Assign, ast.AnnAssign)) and st.value is not None and param in astq.names_in(st.value)
+            for tg in (st.targets if isinstance(st, ast.Assign) else [st.target]) if is_self_attr(tg)}
+
+
+def _host_rule(ctx: Ctx, ip: Interp, router_sites: set[int]) -> None:
+    ainit = ip.adapter.methods["__init__"]
+    minit = ctx.repo.cls(f"{MAP}.Map").methods.get("__init__")
+    roles = {"server_name": _init_attrs(ainit, "server_name"), "subdomain": _init_attrs(ainit, "subdomain"), "map": _init_attrs(ainit, "map"),
+             "host_matching": _init_attrs(minit, "host_matching") if minit is not None else set()}
+    if any(len(v) != 1 for v in roles.values()):
+        raise AnalysisError(f"MapAdapter.__init__ / Map.__init__: the attributes holding the bound server name, subdomain, map and the host-matching flag are not unique: { {k: sorted(v) for k, v in roles.items()} }")
+    a_server, a_sub, a_map, a_hm = (next(iter(roles[k])) for k in ("server_name", "subdomain", "map", "host_matching"))
+    by_site: dict[int, dict[str, t.Any]] = {}
+    for site, fr, pieces, hostfns in ip.host_sites:
+        if id(site) not in router_sites:
+            continue
+        ckey = fr.stack + tuple(sorted((k, repr(v)) for k, v in ((k, _concrete(a)) for k, a in fr.bind.items()) if v is not UNKNOWN))
+        ent = by_site.setdefault(id(site), {"site": site, "fi": fr.fi, "ctxs": {}})
+        ent["ctxs"].setdefault(ckey, (fr, pieces, hostfns))
+    ctx.floor("R12.9", "URL assembly sites of router redirects whose host position is evaluated", len(by_site), 1)
+    decided = 0
+    for ent in sorted(by_site.values(), key=lambda x: (x["fi"].fq, getattr(x["site"], "lineno", 0))):
+        fi: FuncInfo = ent["fi"]
+        site = ent["site"]
+        form = "urlunsplit" if isinstance(site, ast.Call) else "f-string"
+        bad: list[str] = []
+        facts: list[str] = []
+        for fr, pieces, hostfns in ent["ctxs"].values():
+            exprs = [p[1] for p in pieces if p[0] == "e"]
+            via = " <- ".join(x.rsplit(".", 1)[-1] for x in reversed(fr.stack[-3:]))
+            row: list[str] = []
+            open_ctx: list[str] = []
+            for hm, sub in BOUND_CONFIGS:
+                dom = BOUND_SERVER if hm else sub  # the domain part the matcher is given for this adapter
+                want = BOUND_SERVER if hm or not sub else f"{sub}.{BOUND_SERVER}"
+                cfg_txt = f"host_matching={hm}, subdomain={sub!r}"
+                ex = ConstExec(ctx.repo, {a_server: BOUND_SERVER, a_sub: sub, f"{a_map}.{a_hm}": hm}, fill={f.fq: dom for f in hostfns if f.cls is ip.adapter})
+                try:
+                    _, seen = ex.explore(fr.fi, _context_params(ex, fr), exprs)
+                except BudgetExceeded:
+                    open_ctx.append(f"{cfg_txt}: too many paths")
+                    continue
+                texts: list[t.Any] = [""]
+                for p in pieces:
+                    if p[0] == "c":
+                        texts = [x if x is UNKNOWN else x + p[1] for x in texts]
+                    else:
+                        texts = [UNKNOWN if (x is UNKNOWN or not isinstance(v, str)) else x + v for x in texts for v in seen[id(p[1])]]
+                if not texts:
+                    continue  # not reached in this context
+                if any(x is UNKNOWN for x in texts):
+                    open_ctx.append(f"{cfg_txt}: not constant")
+                    continue
+                decided += 1
+                got = sorted(set(texts))
+                row.append(f"({cfg_txt}) -> {got}")
+                wrong = [x for x in got if x != want]
+                if wrong:
+                    bad.append(f"with {cfg_txt} it can be {wrong}, the bound host is {want!r} ({via})")
+            if row:
+                facts.append(f"[{via}] " + ", ".join(row))
+            if open_ctx:
+                ctx.note(f"R12.9: {fi.qualname} ({via}): host position of the {form} not decided for {open_ctx}")
+        if facts:
+            ctx.ob("R12.9", f"{fi.qualname}: host position of the {form} is the bound host", not bad,
+                   ("; ".join(bad) + " | " if bad else "") + f"server name {BOUND_SERVER!r}; host position by configuration: " + " ".join(facts), fi, site, f"{fi.qualname} host position [{form}]")
+    ctx.floor("R12.9", "(assembly site, calling context, configuration) triples in which the host position evaluates to constants", decided, 1)
 
 
 # ---------------------------------------------------------------------
